@@ -1,6 +1,7 @@
 """C05: 'no path' is reported exactly when the destination is unreachable; a destination-less search returns
 exactly the reachable set, each vertex labelled with its least cost."""
 import glob
+import json
 import os
 from lib import vf
 
@@ -26,8 +27,47 @@ RULE = ("graph searches on the real core code (Dijkstra, A* with weight factors 
         "(world, query)")
 
 
+RULE_APP = ("end to end through the application: a REAL CompassApp built offline from a generated TOML configuration + network "
+            "files, CompassApp::run on one JSON query; frontier = no_restriction or the road_class frontier with the query's "
+            "road_classes list (permitted edges = edges whose class is listed; no list = everything permitted; empty list = "
+            "nothing); vertex- and edge-oriented, ids or map-matched coordinates, a* / dijkstra, any traversal configuration "
+            "for destination queries, the distance model in meters with whole-meter lengths for destination-less queries (so "
+            "that tree labels are exact least distances). Families first: forbidden bridge / parallel twin / first hop / last "
+            "hop, everything forbidden, other classes, no class list, two components, one-way street, edge-oriented with a "
+            "forbidden edge between / on the query edges, then searchkit's boundary worlds a configuration can express, then "
+            "random networks (3-40 vertices, forced isolated vertex / unreachable part / parallel edge / self loop). I = "
+            "`error` class (nopath / other) or route.path edge ids, or the tree's vertex set and distance labels. S = RR.judge "
+            "in Coq: verified reachb decides route vs no-path error (never a success without a route), verified pwalkb judges "
+            "the route (permitted walk origin -> destination; between the two query edges when edge-oriented), tree vertex set "
+            "= verified reachable set minus origin, labels = Bellman-Ford least distances; `unspecified` outside the property's "
+            "hypotheses (unknown ids, origin = destination, input error). No model line. Non-trivial = no-path error, tree of "
+            ">= 2 vertices, route of >= 2 edges")
+
+
 def classify(case, i, m, s):
     return None
+
+
+def replay_stream(chk):
+    if not chk.replay:
+        return None
+    try:
+        return json.load(open(chk.replay)).get("stream")
+    except Exception:  # noqa
+        return None
+
+
+def run_app_stream(chk):
+    """stream app_reach of harness/src/bin/e2e.rs: I vs S only (S = the verified reachability specification evaluated on
+    the application's JSON output); `unspecified` cases are not compared"""
+    binp = vf.build_harness("e2e")
+    n = 150 if chk.tier == "quick" else 1500
+    r = vf.run_stream(binp, "app_reach", n, chk.seed, os.path.join(chk.outdir, "app_reach"), replay=chk.replay)
+    I, S = r.impl.get("I", {}), r.model.get("S", {})
+    r.model["M"] = {cid: (I.get(cid) if s == "unspecified" else s) for cid, s in S.items()}
+    r.stats.setdefault("hist", {})["spec_unspecified"] = sum(1 for v in S.values() if v == "unspecified")
+    chk.add_stream(r, RULE_APP)
+    vf.compare(chk, r, classify=classify, binpath=binp)
 
 
 def fix_ties(r):
@@ -52,7 +92,10 @@ def run(chk):
         "runner coq/Model/ReachRun.v (what is compared; the class predicate `specified`)",
         "priority_queue crate specified as 'pop returns an entry of minimal priority; push_increase keeps the smaller "
         "cost'; std HashMap as a finite map",
-        "Rust harness harness/src/searchkit.rs, harness/src/bin/c05.rs and this driver"]
+        "Rust harness harness/src/searchkit.rs, harness/src/bin/c05.rs and this driver",
+        "stream app_reach: harness/src/bin/e2e.rs (configuration / network writers, classification of the `error` text: "
+        "`no path exists between` = nopath; permitted edges computed from the road-class file and the query's list), "
+        "coq/Model/E2ERun.v (calls RR.line_S, nothing else)"]
     chk.assumptions = [
         "restrictions depend only on the edge: frontier(e, state, previous edge) = Ok(ok e); traversal and estimate "
         "never fail; the origin is a vertex of the network; origin and destination distinct",
@@ -64,7 +107,15 @@ def run(chk):
         "A* with a non-zero estimate 'the run did not exhaust its fuel' is a premise (answer_iff_partial)",
         "edge-oriented searches: the two query edges are not submitted to the frontier model by the code; reachability is "
         "about the edges between them"]
-    chk.proofs(extra_targets=["Model/ReachRun.vo"])
+    # coq/Model/E2ERun.v (stream app_reach) also imports the traversal runner of C03, which reads the generated unit / cost /
+    # turn tables: regenerate them here too (a scratch checkout in VERIF_REPO mode starts without coq/Gen/*.v)
+    for name, res in vf.run_translators(which=["turn", "units", "cost"]).items():
+        if not res.get("ok", False):
+            vf.log("translator %s: %s (owned by another check; its previous output is used)" % (name, res.get("msg")))
+    chk.proofs(extra_targets=["Model/ReachRun.vo", "Model/E2ERun.vo"])
+    if replay_stream(chk) == "app_reach":
+        run_app_stream(chk)
+        return finish(chk)
     binp = vf.build_harness("c05")
     thorough = chk.tier != "quick"
     n = 330 if not thorough else 8000
@@ -84,6 +135,12 @@ def run(chk):
     r.stats["hist"]["spec_unspecified"] = sum(1 for v in S.values() if v == "unspecified")
     chk.add_stream(r, RULE)
     vf.compare(chk, r, classify=classify, binpath=binp, extra=extra)
+    if not chk.replay:
+        run_app_stream(chk)
+    finish(chk)
+
+
+def finish(chk):
     if chk.broken_obligation:
         chk.violation("broken-obligation", "proofs", {"obligations": chk.broken_obligation}, "does not check", "Qed",
                       found=False, key="obligation")
